@@ -8,6 +8,8 @@ CONSTANTS
   Sheets <- OneSheet
   CollectAllText = TRUE
   ExpandRowRepeats = TRUE
+  DescendsIntoRowContainers = TRUE
+  ReadsCoveredCells = TRUE
 INVARIANT TypeOK
 INVARIANT ReadsTheLogicalTable
 INVARIANT MissingSheetIsRefused
